@@ -248,11 +248,17 @@ def real_task(task):
     tmp = tempfile.mkdtemp(prefix="verif_c12r_")
     try:
         clustered = bool(task["shard"] % 2)
-        path = build_trace(task["seed"] * 100 + task["shard"], 1 + task["shard"] % 2, clustered, tmp, iters=10)
+        n_chains = 1 + task["shard"] % 3
+        info = {}
+        path = build_trace(task["seed"] * 100 + task["shard"], n_chains, clustered, tmp, iters=10, info=info,
+                           completion_order=list(range(n_chains))[::-1] if task["shard"] % 4 >= 2 else None)
         with gzip.GzipFile(path, "rb") as fh:
             results = pickle.load(fh)
         data, samples = results[0]["data"], list(results[0]["samples"])
-        clusters = results[0].get("clusters")
+        # ground truth for the clustering is the cluster file the run was given, not what the trace happens to carry
+        clusters = None
+        if clustered:
+            clusters = pd.DataFrame(info["cluster_rows"])[["mutation_id", "cluster_id"]].drop_duplicates()
         case = {"seed": task["seed"], "shard": task["shard"], "real_run": True, "clustered": clustered,
                 "n": len(data), "D": len(samples)}
         for cmd in ("map", "topology-report", "consensus"):
@@ -302,6 +308,6 @@ def run(ctx):
     shards = 16
     tasks = [{"seed": ctx.seed, "shard": i, "count": 12 if quick else 600} for i in range(shards)]
     ctx.map("checks.c12", "table_task", tasks, timeout=3000)
-    ctx.map("checks.c12", "real_task", [{"seed": ctx.seed, "shard": i} for i in range(8 if quick else 32)], timeout=3000)
+    ctx.map("checks.c12", "real_task", [{"seed": ctx.seed, "shard": i} for i in range(12 if quick else 48)], timeout=3000)
     if ctx.counters.get("tables_checked", 0) < 200:
         ctx.inconc("too few tables checked")
